@@ -644,6 +644,7 @@ func init() {
 		close(ch)
 		wg.Wait()
 		if ok {
+			c11PauseDuringReconcile(rep)
 			c11Resume(rep, explore.Deadline(60*time.Second, 10*time.Minute))
 		}
 		c11ResumeWakeup(rep)
